@@ -375,3 +375,339 @@ def corpus_cases():
                  ["dropw", 2], ["dropr", 2], ["open", 0, 1, 0, 3], ["open", 1, 0, 0, 4], ["write", 3, 20], ["dropw", 3],
                  ["read", 4, 1000]], "kind": "pair"},
     ]
+
+
+# ---------------------------------------------------------------------------
+# predicates: the property statement evaluated on the behaviour of the real multiplexer alone
+
+WIRE_GRAMMAR = re.compile(r"^C?(OD*C)*(OD*)?$")
+
+
+def pred_header(c, o):
+    bad = []
+    raws, news = o["obs"]
+    for raw, (f, s, i) in zip(c["raws"], raws):
+        if f + s + i != raw or f not in (0, 0x4000, 0x8000, 0xC000) or s not in (0, 0x2000) or not (0 <= i <= 8191) \
+                or (f | s | i) != raw:
+            bad.append({"raw": raw, "failed": f"header fields ({f},{s},{i}) do not partition the 16 bits of {raw}"})
+    for t, r in zip(c["news"], news):
+        fk, sk, idv = t
+        if idv > 8191:
+            if r[0] != 1:
+                bad.append({"new": t, "failed": "StreamId::new accepted an id above the 13-bit mask"})
+            continue
+        if r[0] != 0:
+            bad.append({"new": t, "failed": "Header::new panicked on a valid stream id"})
+            continue
+        h = r[1]
+        if fk in (FK_OPEN, FK_DATA, FK_CLOSE) and sk in (0, SK_CONNECT):
+            if (h & 0xC000, h & 0x2000, h & 0x1FFF) != (fk, sk, idv) or [h & 255, h >> 8] != r[2:4]:
+                bad.append({"new": t, "failed": f"Header::new({t}) = {h} does not decode to the same fields"})
+    return bad
+
+
+def skipped_ops(c, o):
+    """indices (into ops) of ops the harness reported as not applicable"""
+    sk = set()
+    for k, ob in enumerate(o["obs"][1:]):
+        if any(len(e) == 2 and e[1] == -1 for e in ob[0]):
+            sk.add(k)
+    return sk
+
+
+def pred_script(c, o):
+    """isolation, order, completeness, end-of-stream, wire grammar, open-stream bound."""
+    bad = []
+    if "panic" in o:
+        return [{"failed": "the multiplexer panicked: " + o["panic"]}]
+    ops, obs = c["ops"], o["obs"]
+    raw = c["mode"] == "raw"
+    slot_info = {}
+    open_round, dropw_at, dropr_at = {}, {}, {}
+    sk = skipped_ops(c, o)
+    for k, op in enumerate(ops[:len(obs) - 1]):
+        if k in sk:
+            continue
+        if op[0] == "open":
+            slot_info[op[4]] = {"side": op[1], "kind": op[2], "cap": op[3]}
+        elif op[0] == "dropw":
+            dropw_at[op[1]] = k
+        elif op[0] == "dropr":
+            dropr_at[op[1]] = k
+    # open completions, per round; open-stream bound
+    limit = {}
+    live = {}
+    for rnd, ob in enumerate(obs):
+        # ops are applied before round rnd (rnd >= 1): op index rnd-1
+        if rnd >= 1 and (rnd - 1) not in sk:
+            op = ops[rnd - 1]
+            if op[0] in ("dropw", "dropr"):
+                s = op[1]
+                if s in open_round and s in dropw_at and s in dropr_at and max(dropw_at[s], dropr_at[s]) == rnd - 1:
+                    info = slot_info[s]
+                    key = (info["side"], info["kind"], info["cap"])
+                    live[key] = live.get(key, 0) - 1
+        for e in ob[0]:
+            if len(e) == 2 and e[1] == 0:
+                s = e[0]
+                open_round[s] = rnd
+                info = slot_info[s]
+                key = (info["side"], info["kind"], info["cap"])
+                live[key] = live.get(key, 0) + 1
+                lim = stream_limit(c["caps"], info["side"], info["kind"], info["cap"]) if not (raw and False) else None
+                if lim is not None and live[key] > lim:
+                    bad.append({"failed": f"{live[key]} transient streams open at once on side {info['side']} "
+                                          f"{'connect' if info['kind'] else 'accept'} capability {info['cap']}, limit min(local,peer) = {lim}",
+                                "round": rnd})
+    if not raw:
+        # data: every read returns bytes of exactly one writer of the other side, consecutive from 0
+        src_of, total_read, eos_at = {}, {}, {}
+        read_ops = [k for k, op in enumerate(ops) if op[0] == "read"]
+        for r in o["reads"]:
+            s = r["slot"]
+            total_read[s] = total_read.get(s, 0) + r["len"]
+            if r["len"] > 0:
+                if len(r["srcs"]) != 1:
+                    bad.append({"failed": f"slot {s} read {r['len']} bytes at offset {r['off']} that no peer sub-stream wrote there "
+                                          f"(matching writers: {r['srcs']})", "read": r})
+                    continue
+                w = r["srcs"][0]
+                if s in src_of and src_of[s] != w:
+                    bad.append({"failed": f"slot {s} received data of two different peer sub-streams ({src_of[s]} and {w})", "read": r})
+                src_of.setdefault(s, w)
+            if r["len"] < r["want"]:
+                eos_at[s] = True
+        for s, w in src_of.items():
+            a, b = slot_info[s], slot_info.get(w)
+            if b is None or a["side"] == b["side"] or a["cap"] != b["cap"] or a["kind"] == b["kind"]:
+                bad.append({"failed": f"slot {s} {a} received data written on slot {w} {b}: not the matching sub-stream of the same capability"})
+                continue
+            if w in src_of and src_of[w] != s:
+                bad.append({"failed": f"slot {s} reads from {w} but {w} reads from {src_of[w]}: sub-streams are not paired"})
+            if open_round.get(s) != open_round.get(w):
+                bad.append({"failed": f"slot {s} (established in round {open_round.get(s)}) received data of slot {w} "
+                                      f"(established in round {open_round.get(w)}): data crossed incarnations"})
+        seen = {}
+        for s, w in src_of.items():
+            if w in seen:
+                bad.append({"failed": f"slots {seen[w]} and {s} both received the data of slot {w}"})
+            seen[w] = s
+        # end of stream: only after the counterpart closed, and then everything written was delivered
+        for s in eos_at:
+            w = src_of.get(s)
+            if w is None:
+                cands = [x for x, y in src_of.items() if y == s]
+                w = cands[0] if cands else None
+            if w is None:
+                continue
+            if w not in dropw_at:
+                bad.append({"failed": f"slot {s} saw end-of-stream although its counterpart {w} never closed its write half"})
+            elif total_read.get(s, 0) != o["written"].get(str(w), 0):
+                bad.append({"failed": f"slot {s} saw end-of-stream after {total_read.get(s, 0)} bytes, counterpart {w} wrote {o['written'].get(str(w), 0)}"})
+    # wire grammar per (side, stream kind, id) and frame sizes
+    for side in (0, 1):
+        if raw and side == 0:
+            continue
+        wfs = c["cfg"][side][3]
+        seq = {}
+        for ob in obs:
+            for fr in ob[1 + side]:
+                h = fr[0]
+                key = (h & 0x2000, h & 0x1FFF)
+                kind = {0: "O", 0x4000: "D", 0x8000: "C"}.get(h & 0xC000, "?")
+                seq[key] = seq.get(key, "") + kind
+                if kind == "D" and not (1 <= fr[1] <= wfs):
+                    bad.append({"failed": f"side {side} wrote a DATA frame of {fr[1]} bytes, write_frame_size = {wfs}"})
+        for key, sq in seq.items():
+            if not WIRE_GRAMMAR.match(sq):
+                bad.append({"failed": f"side {side} stream {key}: frame kinds {sq[:80]} do not follow CLOSE? (OPEN DATA* CLOSE)*"})
+    return bad
+
+
+def pred_flood(c, o):
+    """flow control against a peer that ignores it: the application of B never reads."""
+    bad = []
+    if "panic" in o:
+        return [{"failed": "the multiplexer panicked: " + o["panic"]}]
+    rfs, rbs, rfc, _ = c["cfg"][1]
+    opened = set()
+    discarded = 0
+    k = 0
+    for rnd, ob in enumerate(o["obs"]):
+        if rnd >= 1:
+            op = c["ops"][rnd - 1]
+            if op[0] == "rawframe":
+                h = op[1]
+                key = (h & 0x2000, h & 0x1FFF)
+                size = 2 + (2 + op[3] if op[2] >= 0 else 0)
+                if key not in opened:
+                    discarded += size          # recv_open drops everything up to and including the first OPEN
+                    if h & 0xC000 == 0:
+                        opened.add(key)
+        pulled = ob[4]
+        bound = discarded + rbs + 4 * (rfc + 1)
+        if pulled > bound:
+            bad.append({"failed": f"the multiplexer pulled {pulled} bytes from a peer that ignores flow control while the application "
+                                  f"read nothing; allowed: {discarded} discarded + read_buffer_size {rbs} + headers of {rfc}+1 frames = {bound}",
+                        "round": rnd})
+            break
+    return bad
+
+
+def predicate(c, o):
+    if "crash" in o or "skipped" in o:
+        return []
+    m = c["mode"]
+    if m == "header":
+        return pred_header(c, o)
+    if m == "verify":
+        return []
+    bad = pred_script(c, o)
+    if c["kind"].startswith("raw-flood"):
+        bad += pred_flood(c, o)
+    if c["kind"].startswith("raw-bad") and "obs" in o:
+        st = o["obs"][-1][5]
+        if st != [[1, 4]]:
+            bad.append({"failed": f"a frame with an unassigned kind / out-of-range stream id ended with status {st}, expected Protocol"})
+    return bad
+
+
+# ---------------------------------------------------------------------------
+
+def build_cases(rng, tier):
+    q = tier == "quick"
+    cases = corpus_cases()
+    p = os.path.join(common.CORPUS, "C14.json")
+    if os.path.exists(p):
+        cases += json.load(open(p))
+    cases += gen_header_cases(rng, 0)
+    cases += gen_verify_cases(rng, 40 if q else 400)
+    npair, nbig, nraw, nflood, nops = (110, 6, 70, 40, 40) if q else (2200, 300, 1400, 600, 70)
+    cases += [gen_pair_case(rng, rng.range(10, nops), False) for _ in range(npair)]
+    cases += [gen_pair_case(rng, rng.range(10, nops), True) for _ in range(nbig)]
+    cases += [gen_raw_case(rng, rng.range(5, nops)) for _ in range(nraw)]
+    cases += [gen_flood_case(rng) for _ in range(nflood)]
+    return cases
+
+
+def run(rep):
+    tier, rng = rep.tier, Rng(rep.seed)
+    cov = rep.cov
+    broken = []
+    po = common.proof_obligations(PROP_FILES)
+    if not po["ok"]:
+        broken.append("Coq obligations of Properties/C14.v: " + (po["log_tail"] or str(po["hygiene_problems"] or po["bad_axioms"])))
+    ok, out = common.cargo_build(["mux"], "dev")
+    if not ok:
+        raise common.MachineryError("cargo build failed: " + out[-2000:])
+    cases = build_cases(rng, tier)
+    outs = common.run_impl("mux", cases, "dev", timeout=600 if tier == "quick" else 2400)
+    coq_cases, pred_fail, kinds = [], [], {}
+    stats = {"ops": 0, "opens_completed": 0, "reads_completed": 0, "reads_with_data": 0, "reads_eos": 0, "bytes_read": 0,
+             "wire_frames": 0, "runs_ended_with_error": 0, "rounds": 0, "skipped_ops": 0}
+    distinct = set()
+    crashed = []
+    for i, (c, o) in enumerate(zip(cases, outs)):
+        kinds[c["kind"].split(" ")[0]] = kinds.get(c["kind"].split(" ")[0], 0) + 1
+        if "crash" in o or "skipped" in o:
+            crashed.append(i)
+            continue
+        coq_cases.append((i, coq_case(c), common.to_obsv(impl_obs(c, o))))
+        for b in predicate(c, o):
+            pred_fail.append({"case": {k: c[k] for k in c if k != "kind"}, "kind": c["kind"], **b})
+        if c["mode"] in ("pair", "raw") and "obs" in o:
+            stats["ops"] += len(o["obs"]) - 1
+            stats["rounds"] += len(o["obs"])
+            for ob in o["obs"]:
+                for e in ob[0]:
+                    if len(e) == 2 and e[1] == 0:
+                        stats["opens_completed"] += 1
+                    elif len(e) == 2 and e[1] == -1:
+                        stats["skipped_ops"] += 1
+                    elif len(e) == 5:
+                        stats["reads_completed"] += 1
+                        stats["bytes_read"] += e[3]
+                        stats["reads_with_data"] += 1 if e[3] > 0 else 0
+                        stats["reads_eos"] += 1 if e[3] < e[2] else 0
+                stats["wire_frames"] += len(ob[1]) + len(ob[2])
+                if ob[5]:
+                    stats["runs_ended_with_error"] += 1
+                if ob[0] or ob[1] or ob[2]:
+                    distinct.add(json.dumps([c["cfg"], ob[:3]]))
+        elif c["mode"] == "header":
+            stats["header_values"] = stats.get("header_values", 0) + len(c["raws"])
+    if crashed:
+        i = crashed[0]
+        raise common.MachineryError(f"harness crashed/hung on case {i} ({cases[i]['kind']}): {outs[i]}")
+    sample_ids = [0, 2, 3]
+    mm, samp = common.run_model_cases("C14", "From EC Require Import Model.MuxHeader Model.Mux.", "Model.Mux.run_case",
+                                      coq_cases, shard_size=6 if tier == "quick" else 24, sample_ids=sample_ids,
+                                      timeout=600 if tier == "quick" else 3000)
+    if mm:
+        broken.append(f"correspondence harness mux vs Model.Mux.run_case: {len(mm)} disagreeing cases")
+    if pred_fail:
+        rep.violation("the multiplexer violates C14: " + pred_fail[0]["failed"],
+                      {"failing_input": pred_fail[0], "more": [p["failed"] for p in pred_fail[1:6]], "broken": broken})
+    elif broken:
+        first = None
+        if mm:
+            i = sorted(mm)[0]
+            io = impl_obs(cases[i], outs[i])
+            mo = mm[i]
+            at = next((k for k in range(max(len(io), len(mo))) if k >= len(io) or k >= len(mo) or io[k] != mo[k]), None)
+            first = {"case": cases[i], "first_differing_round": at,
+                     "impl_round": io[at] if at is not None and at < len(io) else None,
+                     "model_round": mo[at] if at is not None and at < len(mo) else None}
+        rep.violation("C14 no longer shown to hold: " + "; ".join(broken)[:600],
+                      {"broken": broken, "first_disagreement": first}, found_input=False)
+    cov.update({
+        "obligations": po["obligations"] + 1,
+        "discharged": po["discharged"] + (0 if mm else 1),
+        "checker_cmd": "./coqmake theories/Properties/C14.vo (make) + coqc on generated build/cases/C14/cases_*.v (vm_compute of Model.Mux.run_case)",
+        "trusted_base": common.standard_trusted_base([
+            "H-ATOM: tokio channels, semaphores, Notify, oneshot and the ExclusiveLock hand-over are atomic transitions of the model; scheduling is the sequential script with a drain to quiescence after every operation",
+            "the transport in the model and in the harness (tokio::io::duplex with a 2^30 byte buffer) never exerts back pressure on the writer",
+        ]),
+        "theorems": po["theorems"], "axioms": po["axioms"],
+        "evaluations": stats["rounds"] + stats.get("header_values", 0),
+        "distinct_nontrivial": len(distinct),
+        "rule": "non-trivial = distinct (configs, events, frames written by A, frames written by B) observation rounds in which a stream was "
+                "established, a read completed or a frame was written; every observation also carries the bytes each multiplexer pulled from its transport and the run status",
+        "input_distribution": {"cases_by_kind": kinds, **stats,
+                               "generator": "pair: 1-3 capabilities from {0,1,2,3,9,2^33}, limits {0,1,2,5} per side and direction, configs read_frame_size {1..70000} "
+                                            "read_buffer_size {0..2^20} read_frame_count {0..1000} write_frame_size {1..65535}, scripts of 10-40 (quick) / 10-70 (thorough) "
+                                            "ops: opens (both ends, one end only, over the limit), writes 0-3000 bytes (big cases up to 70000), flushes, reads 0-5000 bytes (big: 100000), "
+                                            "drops of either half in any order, ~2% invalid ops; raw: arbitrary frames (any kind incl. the unassigned one, ids in and out of range, "
+                                            "truncated payloads, single bytes, close) against one real Mux whose application opens/reads/drops; raw-flood: OPEN then DATA floods, "
+                                            "application never reads; header: all 2^16 values + 384 (kind,kind,id) triples; verify: boundary configs"},
+        "samples": [{"case": cases[i], "impl": impl_obs(cases[i], outs[i]), "model_obs": samp.get(i)} for i in sample_ids if i < len(cases)],
+        "correspondence_mismatches": len(mm), "predicate_failures": len(pred_fail),
+        "partial": "Proved (closed, no axioms): header layout for all 2^16 values; totality of the frame-kind match; both sides compute the same id->capability table for all "
+                   "limit maps; streams per capability = min(local, peer); verify implies ids fit 13 bits; routing of the dispatcher and Protocol error for foreign ids / unassigned kind; "
+                   "FIFO use of the transport; flow control (held payload <= read_buffer_size, held frames <= read_frame_count, frames <= read_frame_size) against every byte sequence and every "
+                   "consumption order, on an LTS built from the model's own dispatcher step function; read_exact is order/loss/duplication free and reports EOS only after CLOSE; frames after a "
+                   "CLOSE are invisible to the current incarnation; write_all framing. NOT proved: the composition of these component theorems through the scheduler [settle] for all scripts "
+                   "(C14_full in Properties/C14.v: end-to-end byte conservation between paired slots, the refinement of the endpoint's stream state machines onto the flow-control LTS, "
+                   "at-most-one transient stream per reusable stream); that part rests on the differential correspondence and the predicates. Head-of-line blocking is documented behaviour, "
+                   "not claimed absent. write_frame_size = 0 (write_all spins) and read_frame_size = 0 (dispatcher spins on the first DATA frame) are accepted by Config::verify and excluded "
+                   "from the generators; back pressure of a bounded transport on the writer is not modelled.",
+    })
+    rep.assumptions += ["H-ATOM (DESIGN.md 2.3): atomicity of tokio channel / semaphore / oneshot / Notify operations and FIFO fairness of the StreamQueue mutex and bounded channel"]
+
+
+def replay(path):
+    d = json.load(open(path))
+    fi = d.get("failing_input") or d.get("first_disagreement")
+    if not fi or "case" not in fi:
+        print("no concrete input in replay file:", d.get("broken"))
+        return 1
+    c = dict(fi["case"])
+    c.setdefault("kind", fi.get("kind", "replay"))
+    common.cargo_build(["mux"], "dev")
+    o = common.run_impl("mux", [c], "dev")[0]
+    print(json.dumps({"impl": o, "predicate": predicate(c, o)}, indent=1)[:20000])
+    mm, samp = common.run_model_cases("C14replay", "From EC Require Import Model.MuxHeader Model.Mux.", "Model.Mux.run_case",
+                                      [(0, coq_case(c), common.to_obsv(impl_obs(c, o)))], sample_ids=[0])
+    print("model:", json.dumps(samp.get(0))[:20000])
+    print("model agrees with implementation" if not mm else "model DISAGREES with implementation")
+    return 0
